@@ -95,6 +95,11 @@ def gen_graph(rng, n_ns=2, n_nodes=6, hostile=True, with_values=True, dangling=T
         ty = rng.choice(reftypes)
         if rng.random() < 0.5: s, t = t, s
         g.refs.append((s, t, ty))
+    # a node that no document defines, named by a node attribute AND by a reference (a companion nodeset parsed without what it builds on)
+    dang_attr = sorted(set(v for k_ in keys for v in g.nodes[k_]["attrs"].values() if isinstance(v, tuple) and v not in g.nodes))
+    if dangling and dang_attr and keys and rng.random() < 0.7:
+        t = rng.choice(dang_attr); s_ = rng.choice(keys)
+        g.refs.append((s_, t, rng.choice(reftypes)) if rng.random() < 0.5 else (t, s_, rng.choice(reftypes)))
     if rng.random() < 0.3 and keys: k = rng.choice(keys); g.refs.append((k, k, rng.choice(reftypes)))      # self reference
     g.mutual = []
     if rng.random() < 0.35 and len(keys) >= 1 and len(allk) >= 2:
